@@ -17,6 +17,10 @@ CLAIMED["C06"] = dict(cat="fault_enumeration",
    text="Fault injection through the same gated reader: failing files x failure kinds (reader error, bad import line, body syntax error, truncation, undetectable yaml/json, corrupt pb/textpb/pb.json) x completion orders; on graphs of <=4 files the complete (file x kind x order) matrix is enumerated. Oracle: error naming a retrieved failing file and no model; success when nothing retrieved fails; never a panic or stall.",
    note="trusts the release log as the exact set of files retrieved; the CLI exit status is not asserted (the statement only says an error is returned)",
    technique="fault-injection matrix driven by property-based generation (rapid) with harness-owned delivery order")
+CLAIMED["C01"] = dict(cat="exploration",
+   text="Totality by generated-input search: grammar-directed valid-but-odd programs (hand transcription of SyslParser.g4 with a small budget of odd tokens), near-miss mutants of corpus/generated specs and import closures with foreign members are compiled in a worker subprocess; any panic, process exit, stack overflow or reproduced overrun is a violation keyed by its first frame. Thorough adds a byte-level native fuzz target. Exploration is the only level the technique offers for 'all byte strings'.",
+   note="trusts the worker protocol to attribute a death to the in-flight case; acceptance split per generator is reported so a mistranscribed grammar rule shows as a construct never accepted",
+   technique="grammar-directed property-based generation + mutation + (thorough) coverage-guided fuzzing, crash oracle in a sandbox worker")
 NOT_YET = {}
 def main():
     checks = []
